@@ -73,7 +73,7 @@ use crate::base::message_builder::{
     AdditionalBuilder, MessageBuilder, PushError,
 };
 use crate::base::name::{Label, Name, ParsedName, ToLabelIter, ToName};
-use crate::base::record::Record;
+use crate::base::record::{Record, Ttl};
 use crate::base::wire::{Composer, ParseError};
 use crate::rdata::tsig::{Time48, Tsig};
 
@@ -1499,6 +1499,16 @@ impl<'a, Octs: Octets + ?Sized> MessageTsig<'a, Octs> {
             // If it's None, then it's some other record type, and we just
             // continue.
             if let Some(record) = record {
+                // RFC 8945, section 4.2: CLASS must be ANY and TTL must be
+                // zero. Both are part of the signed data but we feed these
+                // fixed values into the digest rather than what is in the
+                // record, so we have to insist.
+                if record.class() != Class::ANY
+                    || record.ttl() != Ttl::ZERO
+                {
+                    return Err(TsigError::Invalid);
+                }
+
                 // We got a valid TSIG, now assert that it's the last record:
                 if section.next().is_some() {
                     return Err(TsigError::Position);
